@@ -10,6 +10,7 @@ import (
 	"encoding/json"
 	"fmt"
 	"io"
+	"net/http"
 	"net/url"
 	"strconv"
 	"strings"
@@ -1044,10 +1045,25 @@ func (c *Client) openWS(query string, extra ...map[string]string) (streamConn, *
 		}
 	}
 	c.lat()
-	r := c.w.serve(c.w.H, c.name, ReqSpec{Method: "GET", Path: pth, Query: query, Hdr: h, Conn: sconn})
-	if !r.Hijacked {
-		cconn.Close()
-		return nil, r
+	var r *Resp
+	if c.sp.EarlyWS {
+		// as on a real connection, the client sees the 101 as soon as the server has written it and goes ahead
+		// while the server's handler is still busy with the handshake (the application's connection listener ...)
+		var req *http.Request
+		req, r = c.w.newRequest(c.name, ReqSpec{Method: "GET", Path: pth, Query: query, Hdr: h, Conn: sconn})
+		done := false
+		c.spawn("wsreq", func() { c.w.serveReq(c.w.H, req, r); done = true })
+		simrt.Block(func() bool { return done || cconn.in.readable() })
+		if done && !r.Hijacked {
+			cconn.Close()
+			return nil, r
+		}
+	} else {
+		r = c.w.serve(c.w.H, c.name, ReqSpec{Method: "GET", Path: pth, Query: query, Hdr: h, Conn: sconn})
+		if !r.Hijacked {
+			cconn.Close()
+			return nil, r
+		}
 	}
 	br := bufio.NewReader(cconn)
 	status, err := br.ReadString('\n')
